@@ -299,10 +299,12 @@ func (e *c08Explorer) runConfig(base vcrash.FS, ingest []int, skipSort, keepMeta
 	kinds := []string{"write", "sync", "rename", "create", "seek", "remove", "read"}
 	for _, kind := range kinds {
 		// a failing write comes in three flavours: a plain I/O error, "no space left" with nothing written, and
-		// "no space left" after the first half of the buffer went to the file (the next attempt succeeds in all three)
+		// "no space left" after the first half of the buffer went to the file (the next attempt succeeds in all three),
+		// and a fourth that is a fault sequence: the volume stays full, the k-th and every later write fail (what a
+		// retry, a deferred flush or a clean-up write then meets)
 		modes := []string{""}
 		if kind == "write" {
-			modes = []string{"", ":enospc", ":enospc-torn"}
+			modes = []string{"", ":enospc", ":enospc-torn", ":enospc-sticky"}
 		}
 		for k := 1; k <= ff.Counts[kind]*len(modes); k++ {
 			spec := fmt.Sprintf("%s:%d%s", kind, (k-1)/len(modes)+1, modes[(k-1)%len(modes)])
